@@ -160,6 +160,26 @@ CLAIMS = {
              "it across the await; R02.5 positional gathers use submission order. Does not decide the linearizability verdict.",
         technique="type scan over ADT/local types, who-may-access field scan, await-site enumeration in coroutine MIR, dominance by await completion / failed-send edges",
         ref="DESIGN.md §3 C02"),
+    "C14": dict(
+        text="Decides the layout-agreement and coverage clauses of C14: R14.1 for SegmentHeader, SegmentFooter, CheckpointHeader, "
+             "CheckpointFooter and WalEntry the writer's derived field table (offset, width, endianness) equals the reader's decoded "
+             "byte ranges field by field; R14.2 size constants cover the written bytes, readers stay within them, validate() compares "
+             "magic, version and checksum; R14.3 every decoded header field is fed to that header's CRC; R14.4 decode is dominated by a "
+             "successful validate() at every consumer; R14.5 serde pairs use one format on one type, SDS writes/reads raw bytes in "
+             "every serializer; R14.6 the WAL reader stops at the first undecodable entry. Does not decide value round-trips.",
+        technique="codec layout extraction from MIR (ordered writer calls vs reader constant ranges), checksum field-coverage sets, dominance by validate() Ok edges",
+        engine="mirfacts+rules",
+        ref="DESIGN.md §3 C14"),
+    "C16": dict(
+        text="Decides the sibling-agreement clauses of C16 on the syntax trees: R16.1 Command::from_resp and from_resp_zero_copy have the "
+             "same (nested) command-name arms and equal per-arm normal forms under a fixed normalisation (block flattening, single-use "
+             "let inlining, renaming table); R16.2 the six extract_* helper pairs are equal modulo the renaming; R16.3 every Lua "
+             "translator arm exists in the RESP parser, builds the same variant, normalises keyword case at the same argument positions "
+             "and knows only RESP keywords (4 known findings: missing options); R16.4 RESP->Lua conversion covers all RespValue "
+             "variants. Does not decide script effect equality.",
+        technique="syn AST normal-form comparison of sibling implementations (engine/synq), arm-summary comparison, enum-dispatch exhaustiveness from MIR",
+        engine="synq+rules",
+        ref="DESIGN.md §3 C16"),
 }
 
 PENDING_REASON = "check not built yet (build in progress; DESIGN.md §3 lists the planned structural clauses)"
@@ -200,6 +220,8 @@ def main():
         "engines": [
             {"name": "mirfacts", "path": "engine/mirfacts", "kind_free_text": "rustc_private driver (nightly): pre-borrowck MIR facts, "
              "resolved callees, CFG, field-named places, ADT tables as JSON", "serves_properties": sorted(CLAIMS)},
+            {"name": "synq", "path": "engine/synq", "kind_free_text": "syn-2 based AST dumper (stable toolchain): JSON syntax trees of functions "
+             "for sibling normal forms and merge-shape certificates", "serves_properties": ["C07", "C16"]},
             {"name": "rules", "path": "rules", "kind_free_text": "python3 stdlib rule library: dominators, must-dataflow, provenance, "
              "call graph, per-property rule modules", "serves_properties": sorted(CLAIMS)},
         ],
